@@ -66,7 +66,8 @@ FIELDS = ['a', 'b', 'c']
 
 def gen_impure_stack(rng):
     """-> (description, expected: 'reject' | 'accept')"""
-    imp_where = rng.choice(['field', 'param', 'none', 'field', 'transform', 'byvalue_impure', 'impure_byvalue'])
+    imp_where = rng.choice(['field', 'param', 'none', 'field', 'transform', 'byvalue_impure', 'impure_byvalue', 'combined_impure',
+                            'combined_pure'])
     src = {'k': 'source', 'cls': 'S0', 'ids': ['i1', 'i2', 'i3'],
            'fields': {'a': {'args': ['i']}, 'b': {'args': ['i']}, 'k': {'args': ['i'], 'table': [[['i1'], 'u'], [['i2'], 'v'], [['i3'], 'u']]}},
            'params': {}, 'cargs': {}, 'defaults': {}}
@@ -83,6 +84,12 @@ def gen_impure_stack(rng):
         src['fields']['a']['byvalue'] = True
         src['fields']['a']['byvalue_outer'] = True
         tainted.add('a')
+    elif imp_where == 'combined_impure':
+        # a = hash_by_value(prepare=impure(f), compute=g): the by-value step is impure
+        src['fields']['a']['combined'] = 'impure'
+        tainted.add('a')
+    elif imp_where == 'combined_pure':
+        src['fields']['a']['combined'] = 'pure'
     elif imp_where == 'param':
         src['params']['_p'] = {'args': [], 'impure': True}
         src['fields']['b']['args'] = ['i', '_p']
@@ -184,3 +191,53 @@ def run_pipeline_shard(args):
     finally:
         shutil.rmtree(scratch, ignore_errors=True)
     return stats, problems
+
+
+# ---------------------------------------------------------------- combined by-value fields: the call returns (C01), caches refuse (C13)
+
+def _combined_child(kind):
+    from .pipeline import Builder
+    from .sym import SymWorld
+    from .codec import canon, val_to_json, exc_name
+    world = SymWorld()
+    b = Builder(world)
+    t1 = {'k': 'transform', 'cls': 'CB', 'fields': {'y': {'args': ['x'], 'combined': kind}}, 'params': {}, 'cargs': {}, 'defaults': {}}
+    t2 = {'k': 'transform', 'cls': 'CB2', 'fields': {'z': {'args': ['y']}}, 'params': {}, 'cargs': {}, 'defaults': {}, 'inherit': True}
+    t = {'k': 'chain', 'flavour': 'chain', 'layers': [t1, t2]}
+    layer = b.layer(t)
+    out = {}
+    try:
+        out['y'] = canon(val_to_json(layer.y(1), world))
+        out['z'] = canon(val_to_json(layer.z(1), world))
+    except Exception as e:
+        out['err'] = exc_name(e)
+    for name, mk in (('ram', lambda: {'k': 'ram', 'names': None, 'size': None}), ('ram-z', lambda: {'k': 'ram', 'names': ['z'], 'size': None})):
+        try:
+            b.layer({'k': 'chain', 'flavour': 'chain', 'layers': [t, mk()]})
+            out[name] = 'built'
+        except Exception as e:
+            out[name] = exc_name(e)
+    return out
+
+
+def run_combined():
+    """hash_by_value(prepare=f, compute=g) with a pure and with an @impure `prepare`: calling the field returns g(f(x)) (a call that
+    does not return within the deadline is a violation of C01), and a cache layer without impure=True refuses the impure variant"""
+    from .par import with_deadline
+    problems = []
+    for kind in ('pure', 'impure'):
+        status, out = with_deadline(_combined_child, kind, timeout=30)
+        if status != 'ok':
+            problems.append({'kind': 'c01', 'combined': kind, 'msg': f'a field defined as hash_by_value(prepare={"impure(f)" if kind == "impure" else "f"}, '
+                                                                     f'compute=g) did not return within 30 s ({status}): the call never returns'})
+            continue
+        if 'err' in out:
+            problems.append({'kind': 'c01', 'combined': kind, 'msg': f'calling a combined by-value field raised {out["err"]}'})
+        elif '#compute' not in out.get('y', '') or '#prepare' not in out.get('y', ''):
+            problems.append({'kind': 'c01', 'combined': kind, 'msg': f'a combined by-value field returned {out.get("y", "")[:120]}, not compute(prepare(x))'})
+        want = 'built' if kind == 'pure' else 'ValueError'
+        for name in ('ram', 'ram-z'):
+            if out.get(name) != want:
+                problems.append({'kind': 'c13', 'combined': kind, 'msg': f'CacheToRam over a field downstream of hash_by_value(prepare='
+                                 f'{"impure(f)" if kind == "impure" else "f"}, compute=g): {out.get(name)} (expected {want})'})
+    return problems
